@@ -2,7 +2,7 @@
 # run every check's quick (or $1) tier on the current tree; print a one-line summary per check
 tier=${1:-quick}
 cd /verif
-for id in C01 C02 C03 C04 C05 C06 C07 C08 C09 C10 C11 C12 C13 C14 C15 C16 C17 C18 C19; do
+for id in ${IDS:-C01 C02 C03 C04 C05 C06 C07 C08 C09 C10 C11 C12 C13 C14 C15 C16 C17 C18 C19}; do
   s=$(date +%s)
   ./check $id --tier $tier > /tmp/runall-$id.log 2>&1; rc=$?
   e=$(date +%s)
